@@ -63,6 +63,18 @@ def check_binary(E, op, a, b, ra, rb, res, exc, reflected):
         r1 = observe.vrepr(x)
         if not same_phys(r0, r1):
             record("operand changed by the operation", op, {"operand": who, "before": brief(r0), "after": brief(r1)})
+    # the result records its operands (the very objects) and the operator symbol: what explain() and the graph are built from
+    if exc is None and isinstance(res, (E.ExplainableQuantity, E.ExplainableHourlyQuantities)) and res is not a and res is not b \
+            and getattr(res, "operator", None) in ("+", "-", "*", "/"):
+        COUNTS["parents_recorded_checked"] += 1
+        lp, rp = res.left_parent, res.right_parent
+        if res.operator != op:
+            record("result records another operator than the one applied", op, {"recorded": res.operator})
+        elif op in ("-", "/"):
+            if lp is not a or rp is not b:
+                record("result does not record its operands as (left, right) parents", op, {"left": brief(ra), "right": brief(rb)})
+        elif not ((lp is a and rp is b) or (lp is b and rp is a)):
+            record("result does not record its operands as parents", op, {"left": brief(ra), "right": brief(rb)})
     da, db = dims(ra), dims(rb)
     if op in ("+", "-"):
         if ka != "empty" and kb != "empty" and ka == kb and da != db:
